@@ -137,7 +137,11 @@ type callArgs struct {
 	uid               ptttype.UID
 	bmc, friend, name bool
 	busy              bool   // xreadb: Shm.BBusyState raised during the call
-	rawID, rawBM      []byte // nlist: user id and moderator string byte for byte (nil otherwise)
+	rawID, rawBM      []byte // nlist / m-ops: user id and moderator string byte for byte (nil otherwise)
+	nl                bool   // nlist judgement
+	spell             []byte // s-ops: the caller's id as the client spelled it
+	mode              string // "" decision table, "s" caller resolved by InitCurrentUser, "m" moderator facts left by the resetbm history
+	pre               *facts // s/m-ops: the oracle's facts, computed by accounts.go
 }
 
 func nameOf(bid ptttype.Bid) *ptttype.BoardID_t {
@@ -162,13 +166,21 @@ func errClass(err error) string {
 		return "allow"
 	case errors.Is(err, ptt.ErrNotPermitted):
 		return "deny"
+	case spellMode && (errors.Is(err, bbs.ErrInvalidParams) || errors.Is(err, bbs.ErrInvalidUUserID) || errors.Is(err, ptttype.ErrInvalidUserID)):
+		return "err:user"
 	case errors.Is(err, ptttype.ErrInvalidBid), errors.Is(err, bbs.ErrInvalidBBoardID), errors.Is(err, bbs.ErrInvalidParams):
 		return "err:invalid-bid"
 	}
 	return "err:other"
 }
 
-func uuser() bbs.UUserID { return bbs.UUserID(readerName) }
+// the caller as the bbs wrappers get it: the client's own spelling for the s-ops, the fixture's reader otherwise
+func uuserOf(a callArgs) bbs.UUserID {
+	if a.spell != nil {
+		return bbs.UUserID(string(a.spell))
+	}
+	return bbs.UUserID(readerName)
+}
 
 func bboard(bid, nameBid ptttype.Bid) bbs.BBoardID {
 	return bbs.BBoardID(strconv.Itoa(int(bid)) + "_" + string(bytes.TrimRight(nameOf(nameBid)[:], "\x00")))
@@ -181,7 +193,7 @@ func doRead(entry string, a callArgs, user *ptttype.UserecRaw) string {
 	if *layer == "bbs" {
 		switch entry {
 		case "IsBoardValidUser":
-			ok, err := bbs.IsBoardValidUser(uuser(), bboard(a.bid, a.nameBid))
+			ok, err := bbs.IsBoardValidUser(uuserOf(a), bboard(a.bid, a.nameBid))
 			if err != nil {
 				return errClass(err)
 			}
@@ -190,7 +202,7 @@ func doRead(entry string, a callArgs, user *ptttype.UserecRaw) string {
 			}
 			return "deny"
 		case "LoadGeneralArticles":
-			s, _, _, _, _, err := bbs.LoadGeneralArticles(uuser(), bboard(a.bid, a.nameBid), "", 10, true)
+			s, _, _, _, _, err := bbs.LoadGeneralArticles(uuserOf(a), bboard(a.bid, a.nameBid), "", 10, true)
 			if err != nil {
 				return errClass(err)
 			}
@@ -199,7 +211,7 @@ func doRead(entry string, a callArgs, user *ptttype.UserecRaw) string {
 			}
 			return "allow"
 		case "LoadBottomArticles":
-			s, err := bbs.LoadBottomArticles(uuser(), bboard(a.bid, a.nameBid))
+			s, err := bbs.LoadBottomArticles(uuserOf(a), bboard(a.bid, a.nameBid))
 			if err != nil {
 				return errClass(err)
 			}
@@ -210,7 +222,7 @@ func doRead(entry string, a callArgs, user *ptttype.UserecRaw) string {
 		case "FindArticleStartIdx":
 			// the cursor form of the article list: FindArticleStartIdx, then LoadGeneralArticles
 			cursor := strconv.Itoa(art1Time) + "@" + string(bbs.ToArticleID(fn(art1)))
-			s, _, _, _, _, err := bbs.LoadGeneralArticles(uuser(), bboard(a.bid, a.nameBid), cursor, 10, false)
+			s, _, _, _, _, err := bbs.LoadGeneralArticles(uuserOf(a), bboard(a.bid, a.nameBid), cursor, 10, false)
 			if err != nil {
 				return errClass(err)
 			}
@@ -219,7 +231,7 @@ func doRead(entry string, a callArgs, user *ptttype.UserecRaw) string {
 			}
 			return "allow"
 		case "ReadPost":
-			c, _, _, err := bbs.GetArticle(uuser(), bboard(a.bid, a.nameBid), bbs.ToArticleID(fn(art1)), 0, false)
+			c, _, _, err := bbs.GetArticle(uuserOf(a), bboard(a.bid, a.nameBid), bbs.ToArticleID(fn(art1)), 0, false)
 			if err != nil {
 				return errClass(err)
 			}
@@ -228,7 +240,7 @@ func doRead(entry string, a callArgs, user *ptttype.UserecRaw) string {
 			}
 			return "allow"
 		case "ReadPostTemplate":
-			c, _, _, err := bbs.GetPostTemplate(uuser(), bboard(a.bid, a.nameBid), 1, 0, false)
+			c, _, _, err := bbs.GetPostTemplate(uuserOf(a), bboard(a.bid, a.nameBid), 1, 0, false)
 			if err != nil {
 				return errClass(err)
 			}
@@ -332,24 +344,24 @@ func doList(f string, a callArgs, user *ptttype.UserecRaw) string {
 		var err error
 		switch f {
 		case "LoadGeneralBoards":
-			ss, _, err = bbs.LoadGeneralBoards(uuser(), "", 100, nil, nil, true, ptttype.BSORT_BY_NAME)
+			ss, _, err = bbs.LoadGeneralBoards(uuserOf(a), "", 100, nil, nil, true, ptttype.BSORT_BY_NAME)
 		case "LoadAutoCompleteBoards":
-			ss, _, err = bbs.LoadAutoCompleteBoards(uuser(), "", 100, "T", true)
+			ss, _, err = bbs.LoadAutoCompleteBoards(uuserOf(a), "", 100, "T", true)
 		case "LoadBoardsByBids":
-			ss, err = bbs.LoadBoardsByBids(uuser(), bids)
+			ss, err = bbs.LoadBoardsByBids(uuserOf(a), bids)
 		case "LoadHotBoards":
-			ss, err = bbs.LoadHotBoards(uuser())
+			ss, err = bbs.LoadHotBoards(uuserOf(a))
 		case "LoadFullClassBoards":
-			ss, _, err = bbs.LoadFullClassBoards(uuser(), 1, 100)
+			ss, _, err = bbs.LoadFullClassBoards(uuserOf(a), 1, 100)
 		case "LoadClassBoards":
-			ss, err = bbs.LoadClassBoards(uuser(), bidRoot, ptttype.BSORT_BY_CLASS)
+			ss, err = bbs.LoadClassBoards(uuserOf(a), bidRoot, ptttype.BSORT_BY_CLASS)
 		case "LoadBoardSummary":
 			var s *bbs.BoardSummary
-			s, err = bbs.LoadBoardSummary(uuser(), bboard(a.bid, a.bid))
+			s, err = bbs.LoadBoardSummary(uuserOf(a), bboard(a.bid, a.bid))
 			ss = []*bbs.BoardSummary{s}
 		case "LoadBoardDetail":
 			var d *bbs.BoardDetail
-			d, err = bbs.LoadBoardDetail(uuser(), bboard(a.bid, a.bid))
+			d, err = bbs.LoadBoardDetail(uuserOf(a), bboard(a.bid, a.bid))
 			if errors.Is(err, ptt.ErrNotPermitted) {
 				return "absent"
 			}
@@ -463,6 +475,7 @@ func exec(line string) (out, label string, nontrivial bool, fails []fail) {
 			setBoard(b, 0, 0)
 		}
 		boardsSet = map[ptttype.Bid]bool{}
+		resetAccounts()
 		return "ok", "reset", false, nil
 	case "setb":
 		if len(ws) != 4 {
@@ -488,7 +501,10 @@ func exec(line string) (out, label string, nontrivial bool, fails []fail) {
 			return bad()
 		}
 		rest := append(append([]string{"list"}, ws[1:8]...), "0")
-		return execRead(rest, 0, false, id, bm)
+		out, label, nontrivial, fails = execReadNL(rest, id, bm)
+		return
+	case "users", "sread", "slist", "resetbm", "mread", "mlist":
+		return execAccounts(ws)
 	case "xread", "xreadb":
 		if len(ws) != 10 || !isIn(ws[1], readEntries) {
 			return bad()
@@ -504,6 +520,14 @@ func exec(line string) (out, label string, nontrivial bool, fails []fail) {
 	}
 	return bad()
 }
+
+func execReadNL(ws []string, id, bm []byte) (string, string, bool, []fail) {
+	nlNext = true
+	defer func() { nlNext = false }()
+	return execRead(ws, 0, false, id, bm)
+}
+
+var nlNext bool
 
 // execRead: a read/list op; nameBid != 0 marks an xread (the name handed over is that board's).
 func execRead(ws []string, nameBid ptttype.Bid, busy bool, rawID, rawBM []byte) (out, label string, nontrivial bool, fails []fail) {
@@ -525,7 +549,7 @@ func execRead(ws []string, nameBid ptttype.Bid, busy bool, rawID, rawBM []byte) 
 		if ws[0] == "read" && !isIn(ws[1], readEntries) || ws[0] == "list" && !isIn(ws[1], listFns) {
 			return bad()
 		}
-		a := callArgs{busy: busy, rawID: rawID, rawBM: rawBM, nameBid: ptttype.Bid(bidv), bid: ptttype.Bid(bidv), ulevel: ulevel, over18: over18, uid: ptttype.UID(uidv), bmc: bmc, friend: friend, name: named}
+		a := callArgs{nl: nlNext, busy: busy, rawID: rawID, rawBM: rawBM, nameBid: ptttype.Bid(bidv), bid: ptttype.Bid(bidv), ulevel: ulevel, over18: over18, uid: ptttype.UID(uidv), bmc: bmc, friend: friend, name: named}
 		// a valid bid must have been configured in this history; the friend fact needs the account that can be listed
 		if nameBid != 0 {
 			// xread: both boards exist; the public control board is always configured (attr 0, level 0)
@@ -554,18 +578,46 @@ func execCall(kind, entry string, a callArgs) (out, label string, nontrivial boo
 	user := mkUser(a.ulevel, a.over18, a.rawID)
 	var f facts
 	known := a.bid.IsValid()
-	if known {
-		setRelation(a.bid, a.uid, a.bmc, a.friend, a.name, opCount/13, a.rawBM)
-		if a.rawID != nil {
-			a.name = oracleNamed(a.rawID, a.rawBM) // the oracle's own reading of "named moderator"
+	preRes := ""
+	switch a.mode {
+	case "s":
+		// the caller is whoever InitCurrentUser makes of the spelling; no moderator, no friend, nobody named
+		setRelation(a.bid, a.uid, false, false, false, 0, []byte{})
+		delete(modState, a.bid)
+		f = *a.pre
+		f.attr, f.blevel = boardNow(a.bid)
+		if *layer != "bbs" {
+			raw := &ptttype.UserID_t{}
+			copy(raw[:], a.spell)
+			preRes = hx.CallSync(func() string {
+				uid, u, err := ptt.InitCurrentUser(raw)
+				if err != nil {
+					return "err:user"
+				}
+				a.uid, user = uid, u
+				return ""
+			})
 		}
-		attr, blevel := boardNow(a.bid)
-		f = facts{ulevel: a.ulevel, over18: a.over18, uid: int32(a.uid), attr: attr, blevel: blevel, bmCache: a.bmc, friend: a.friend, named: a.name}
-	}
-	if *layer == "bbs" {
-		// the bbs layer loads the account from .PASSWDS
-		if err := cmbbs.PasswdUpdate(uidReader, user); err != nil {
-			fatalf("PasswdUpdate: %v", err)
+	case "m":
+		// moderator cache and moderator string are what the resetbm history left; only the friend file is arranged
+		setFriendOnly(a.bid, a.friend, a.rawID)
+		f = *a.pre
+		f.attr, f.blevel = boardNow(a.bid)
+	default:
+		if known {
+			setRelation(a.bid, a.uid, a.bmc, a.friend, a.name, opCount/13, a.rawBM)
+			delete(modState, a.bid)
+			if a.nl {
+				a.name = oracleNamed(a.rawID, a.rawBM) // the oracle's own reading of "named moderator"
+			}
+			attr, blevel := boardNow(a.bid)
+			f = facts{ulevel: a.ulevel, over18: a.over18, uid: int32(a.uid), attr: attr, blevel: blevel, bmCache: a.bmc, friend: a.friend, named: a.name}
+		}
+		if *layer == "bbs" {
+			// the bbs layer loads the account from .PASSWDS
+			if err := cmbbs.PasswdUpdate(uidReader, user); err != nil {
+				fatalf("PasswdUpdate: %v", err)
+			}
 		}
 	}
 	var res string
@@ -574,11 +626,16 @@ func execCall(kind, entry string, a callArgs) (out, label string, nontrivial boo
 		cache.Shm.Shm.BBusyState = 1
 		defer func() { cache.Shm.Shm.BBusyState = 0 }()
 	}
-	if kind == "read" {
+	spellMode = a.mode == "s"
+	switch {
+	case preRes != "":
+		res = preRes
+	case kind == "read":
 		res = hx.CallSync(func() string { return doRead(entry, a, user) })
-	} else {
+	default:
 		res = hx.CallSync(func() string { return doList(entry, a, user) })
 	}
+	spellMode = false
 	attrAfter := "-"
 	if known {
 		at, _ := boardNow(a.bid)
@@ -602,6 +659,25 @@ func execCall(kind, entry string, a callArgs) (out, label string, nontrivial boo
 	if res == "PANIC" {
 		fails = append(fails, fail{"crash:" + entry, desc + " — " + hx.LastPanic})
 		return out, label, true, fails
+	}
+	if a.mode == "s" {
+		desc = fmt.Sprintf("caller spelled %q, resolves to %s: ", a.spell, a.pre.who) + desc
+		label = "s" + label
+		if a.pre.expectErr {
+			label = "s" + kind + ":" + res + ":no-such-user"
+			if res != "err:user" && res != "PANIC" {
+				fails = append(fails, fail{"user:unknown-accepted", desc})
+			}
+			return out, label, true, fails
+		}
+		if res == "err:user" {
+			fails = append(fails, fail{"user:refused", desc})
+			return out, label, true, fails
+		}
+	}
+	if a.mode == "m" {
+		desc = fmt.Sprintf("moderator string %q (own moderators by the oracle: %v), after the history: ", cstrBytes(a.rawBM), a.pre.mods) + desc
+		label = "m" + label
 	}
 	if kind == "read" && a.nameBid != a.bid {
 		label = "xread:" + res + ":" + branch
@@ -633,7 +709,7 @@ func execCall(kind, entry string, a callArgs) (out, label string, nontrivial boo
 		return out, label, true, fails
 	}
 	may := allow || f.administers()
-	if a.rawID != nil {
+	if a.nl {
 		desc = fmt.Sprintf("user id %q, moderator string %q: ", cstrBytes(a.rawID), cstrBytes(a.rawBM)) + desc
 		label = "nlist:" + res + ":" + map[bool]string{true: "named", false: "not-named"}[a.name]
 		shown := res == "title" || res == "masked"
@@ -687,6 +763,8 @@ func boardFacts(a callArgs, bid ptttype.Bid) facts {
 	attr, blevel := boardNow(bid)
 	return facts{ulevel: a.ulevel, over18: a.over18, uid: int32(a.uid), attr: attr, blevel: blevel}
 }
+
+var spellMode bool
 
 var noted = map[string]bool{}
 
